@@ -23,8 +23,8 @@ done
 echo "demo files:$DEMOS"
 PKGS=$(for d in $DEMOS; do echo ./$(dirname $d); done | sort -u)
 RACE=""; grep -qi "go test -race\|-race" "$M/NOTES.md" 2>/dev/null && [ "$ID" = "C20" ] && RACE="-race"
-go test $RACE -vet=off -count=1 $PKGS > /tmp/demo-with-$$.txt 2>&1; WITH=$?
-git apply -R "$P"; go test $RACE -vet=off -count=1 $PKGS > /tmp/demo-without-$$.txt 2>&1; WITHOUT=$?
+go test $RACE -vet=off -count=1 ${RUNPAT:+-run $RUNPAT} $PKGS > /tmp/demo-with-$$.txt 2>&1; WITH=$?
+git apply -R "$P"; go test $RACE -vet=off -count=1 ${RUNPAT:+-run $RUNPAT} $PKGS > /tmp/demo-without-$$.txt 2>&1; WITHOUT=$?
 echo "suite_green_with_change=$SUITE_OK demo_with_change_exit=$WITH demo_without_change_exit=$WITHOUT"
 [ $WITHOUT -ne 0 ] && tail -5 /tmp/demo-without-$$.txt
 D=/verif/seeded/$NAME; mkdir -p $D; cp "$P" $D/patch.diff; for d in $DEMOS; do cp $d $D/$(echo $d | sed 's|^\./||; s|/|_|g; s|zz_||'); done; cp "$M/NOTES.md" $D/NOTES.md 2>/dev/null
